@@ -622,3 +622,27 @@ pub fn truncate_objects(text: &str, n: usize) -> String {
     }
     out
 }
+
+fn fnv1a(mut h: u64, s: &str) -> u64 {
+    for b in s.bytes() {
+        h ^= u64::from(b);
+        h = h.wrapping_mul(0x0000_0100_0000_01b3);
+    }
+    h
+}
+
+/// Count, order-sensitive checksum over all items, the items (first and last 24 beyond 48) — the
+/// same rendering as `showLong` in Model/SliderEventsWire.lean.
+pub fn show_long(l: &[String]) -> String {
+    let mut h: u64 = 0xcbf2_9ce4_8422_2325;
+    for s in l {
+        h = fnv1a(fnv1a(h, s), ";");
+    }
+    let n = l.len();
+    let shown: Vec<&str> = if n <= 48 {
+        l.iter().map(String::as_str).collect()
+    } else {
+        l[..24].iter().map(String::as_str).chain(std::iter::once("...")).chain(l[n - 24..].iter().map(String::as_str)).collect()
+    };
+    format!("{n}#{h}#{}", if shown.is_empty() { "-".to_owned() } else { shown.join(";") })
+}
